@@ -722,5 +722,43 @@ C04(T) ==
   C04Ack(T, "S", "EOF", "WAITING_FOR_EOF_ACK", T.cfg.ackLim) \cup C04Ack(T, "D", "FIN", "WAITING_FOR_FINISHED_ACK", T.cfg.ackLim)
   \cup C04Nak(T) \cup (IF T.kind = "pair" THEN C04Silent(T) \cup C04Bound(T) ELSE {})
 
-Violations(T) == C01(T) \cup C02(T) \cup C03(T) \cup C10(T) \cup C07(T) \cup C08(T) \cup C19(T) \cup C05(T) \cup C06(T) \cup C15(T) \cup C12(T) \cup C13(T) \cup C14(T) \cup C14Table(T) \cup C04(T)
+\* ===== C16: all file access goes through the user-supplied virtual filestore =====
+\* T.ev: the execution on the native filestore; T.ev2: the same schedule on a purely in-memory filestore whose paths do not
+\* exist on the host.  Both must agree event by event in everything observable, and the host must stay untouched.
+C16(T) ==
+  IF ~Has(T, "C16") THEN {} ELSE
+  (IF Len(T.ev) # Len(T.ev2) THEN {V("C16", "in-memory-run-has-a-different-number-of-events", PMin(Len(T.ev), Len(T.ev2)), Kf(T), "", "")} ELSE {})
+  \cup UNION { LET a == T.ev[i]  b == T.ev2[i] IN
+               IF a.side # b.side \/ a.call # b.call THEN {V("C16", "in-memory-run-takes-a-different-course", i, Kf(T), "", "")}
+               ELSE IF a.side = "E" THEN {}
+               ELSE { V("C16", "in-memory-run-differs-from-native-run", i, Kf(T), c, "") :
+                      c \in (IF a.out # b.out THEN {"out"} ELSE {}) \cup (IF a.ind # b.ind THEN {"ind"} ELSE {})
+                            \cup (IF a.flt # b.flt THEN {"flt"} ELSE {}) \cup (IF a.exc # b.exc THEN {"exc"} ELSE {})
+                            \cup (IF a.ret # b.ret THEN {"ret"} ELSE {}) \cup (IF a.post # b.post THEN {"post"} ELSE {})
+                            \cup (IF ToSet(a.fs) # ToSet(b.fs) THEN {"fs"} ELSE {}) }
+                    \cup (IF b.hostopen # <<>> THEN {V("C16", "host-path-accessed-behind-the-in-memory-filestore", i, Kf(T), b.hostopen[1], "")} ELSE {})
+               : i \in 1..PMin(Len(T.ev), Len(T.ev2)) }
+  \cup (IF T.hostTouched THEN {V("C16", "host-file-system-touched-by-the-in-memory-run", 0, Kf(T), "", "")} ELSE {})
+
+\* ===== C11: transactions are isolated from earlier transactions and other handler instances =====
+\* T.ev: the transaction on freshly constructed handlers; T.ev2: the same transaction (same request, link behaviour, relative
+\* timing) on handler objects with a history of earlier transactions / next to busy sibling instances.  Everything observable
+\* must agree event by event; the clock readings differ by a constant and are not compared.
+\* (the file_size property of a handler without a transaction - 0 when fresh, None after a reset - is not behaviour of a transaction)
+Pub11(x) == [x EXCEPT !.fileSize = IF x.tidSet THEN @ ELSE 0]
+C11(T) ==
+  IF ~Has(T, "C11") THEN {} ELSE
+  (IF Len(T.ev) # Len(T.ev2) THEN {V("C11", "reused-handler-run-has-a-different-number-of-events", PMin(Len(T.ev), Len(T.ev2)), Kf(T), "", "")} ELSE {})
+  \cup UNION { LET a == T.ev[i]  b == T.ev2[i] IN
+               IF a.side # b.side \/ a.call # b.call THEN {V("C11", "reused-handler-run-takes-a-different-course", i, Kf(T), "", "")}
+               ELSE IF a.side = "E" THEN {}
+               ELSE { V("C11", "behaviour-depends-on-handler-history-or-sibling-instances", i, Kf(T), c, "") :
+                      c \in (IF a.out # b.out THEN {"out"} ELSE {}) \cup (IF a.ind # b.ind THEN {"ind"} ELSE {})
+                            \cup (IF a.flt # b.flt THEN {"flt"} ELSE {}) \cup (IF a.exc # b.exc THEN {"exc"} ELSE {})
+                            \cup (IF a.ret # b.ret THEN {"ret"} ELSE {}) \cup (IF Pub11(a.post) # Pub11(b.post) THEN {"post"} ELSE {})
+                            \cup (IF Pub11(a.pre) # Pub11(b.pre) THEN {"pre"} ELSE {})
+                            \cup (IF ToSet(a.fs) # ToSet(b.fs) THEN {"fs"} ELSE {}) }
+               : i \in 1..PMin(Len(T.ev), Len(T.ev2)) }
+
+Violations(T) == C01(T) \cup C02(T) \cup C03(T) \cup C10(T) \cup C07(T) \cup C08(T) \cup C19(T) \cup C05(T) \cup C06(T) \cup C15(T) \cup C12(T) \cup C13(T) \cup C14(T) \cup C14Table(T) \cup C04(T) \cup C16(T) \cup C11(T)
 ====
